@@ -50,19 +50,23 @@ def read {S P : Type} {n : Nat} (R : Reader S P n) (d : Disk S n) : Out P :=
   | some c => if R.crc d.pa = c then .ok (R.parts d.pa) false else readBackup R d
   | none => readBackup R d
 
-/-- every state the disk can be in if `Write new` over `old` is cut off: the five synced writes in
-    program order (sector 0, backup array, backup header, primary array, primary header), the one in
-    flight with any subset of its sectors persisted -/
-inductive Crash {S : Type} {n : Nat} (old new : Disk S n) : Disk S n → Prop
-  | pmbr (m : S) (hm : m = old.mbr ∨ m = new.mbr) : Crash old new { old with mbr := m }
+/-- every state the disk can be in if `Write new` over `old` is cut off: the synced writes in
+    program order — backup array, backup header, primary array, primary header, with the
+    protective-MBR entries of sector 0 either first (`pmFirst = true`, the order found in the code)
+    or last (`pmFirst = false`, the repaired order) — the one in flight with any subset of its
+    sectors persisted -/
+inductive Crash {S : Type} {n : Nat} (pmFirst : Bool) (old new : Disk S n) : Disk S n → Prop
+  | pmbrFirst (m : S) (hm : m = old.mbr ∨ m = new.mbr) (hf : pmFirst = true) : Crash pmFirst old new { old with mbr := m }
   | backupArray (keep : Fin n → Bool) :
-      Crash old new { old with mbr := new.mbr, ba := mix keep new.ba old.ba }
+      Crash pmFirst old new { old with mbr := if pmFirst then new.mbr else old.mbr, ba := mix keep new.ba old.ba }
   | backupHeader (h : S) (hh : h = old.bh ∨ h = new.bh) :
-      Crash old new { old with mbr := new.mbr, ba := new.ba, bh := h }
+      Crash pmFirst old new { old with mbr := if pmFirst then new.mbr else old.mbr, ba := new.ba, bh := h }
   | primaryArray (keep : Fin n → Bool) :
-      Crash old new { mbr := new.mbr, ba := new.ba, bh := new.bh, ph := old.ph, pa := mix keep new.pa old.pa }
+      Crash pmFirst old new { mbr := if pmFirst then new.mbr else old.mbr, ba := new.ba, bh := new.bh, ph := old.ph,
+                              pa := mix keep new.pa old.pa }
   | primaryHeader (h : S) (hh : h = old.ph ∨ h = new.ph) :
-      Crash old new { new with ph := h }
+      Crash pmFirst old new { new with mbr := if pmFirst then new.mbr else old.mbr, ph := h }
+  | pmbrLast (m : S) (hm : m = old.mbr ∨ m = new.mbr) (hf : pmFirst = false) : Crash pmFirst old new { new with mbr := m }
 
 /-- the old table is valid on disk (only its primary copy is needed) -/
 structure OldOk {S P : Type} {n : Nat} (R : Reader S P n) (old : Disk S n) : Prop where
@@ -89,12 +93,13 @@ theorem mix_none {S : Type} {n : Nat} (new old : Fin n → S) : mix (fun _ => fa
 
 /-- crash atomicity, GPT over GPT: every crash state — for ALL subsets of the in-flight sectors —
     reads as exactly the old or exactly the new partition list, never an error, never a mixture -/
-theorem crash_atomic {S P : Type} {n : Nat} (R : Reader S P n) (old new : Disk S n)
+theorem crash_atomic {S P : Type} {n : Nat} (R : Reader S P n) (pmFirst : Bool) (old new : Disk S n)
     (hOld : OldOk R old) (hNew : NewOk R new) (hColl : NoCrcCollision R old new)
-    (d : Disk S n) (hd : Crash old new d) :
+    (d : Disk S n) (hd : Crash pmFirst old new d) :
     (read R d).parts? = some (R.parts old.pa) ∨ (read R d).parts? = some (R.parts new.pa) := by
   cases hd with
-  | pmbr m hm => left; simp [read, hOld.hdr, Out.parts?]
+  | pmbrFirst m hm hf => left; simp [read, hOld.hdr, Out.parts?]
+  | pmbrLast m hm hf => right; simp [read, hNew.hdrP, Out.parts?]
   | backupArray keep => left; simp [read, hOld.hdr, Out.parts?]
   | backupHeader h hh => left; simp [read, hOld.hdr, Out.parts?]
   | primaryArray keep =>
@@ -123,18 +128,25 @@ theorem complete_reads_primary {S P : Type} {n : Nat} (R : Reader S P n) (new : 
   simp [read, hNew.hdrP]
 
 /-- the completed write is one of the crash states (the last write in flight with its sector persisted) -/
-theorem complete_is_crash_state {S : Type} {n : Nat} (old new : Disk S n) : Crash old new new := by
-  have := Crash.primaryHeader (old := old) (new := new) new.ph (Or.inr rfl)
-  simpa using this
+theorem complete_is_crash_state {S : Type} {n : Nat} (pmFirst : Bool) (old new : Disk S n) :
+    Crash pmFirst old new new := by
+  cases pmFirst with
+  | true =>
+    have := Crash.primaryHeader (pmFirst := true) (old := old) (new := new) new.ph (Or.inr rfl)
+    simpa using this
+  | false =>
+    have := Crash.pmbrLast (pmFirst := false) (old := old) (new := new) new.mbr (Or.inr rfl) rfl
+    simpa using this
 
 /-- first-ever write (no valid GPT before: neither header validates): every crash state reads as an
     error (as before the write) or as exactly the new table -/
-theorem blank_old {S P : Type} {n : Nat} (R : Reader S P n) (old new : Disk S n)
+theorem blank_old {S P : Type} {n : Nat} (R : Reader S P n) (pmFirst : Bool) (old new : Disk S n)
     (hP : R.hdrP old.ph = none) (hB : R.hdrB old.bh = none) (hNew : NewOk R new)
-    (d : Disk S n) (hd : Crash old new d) :
+    (d : Disk S n) (hd : Crash pmFirst old new d) :
     read R d = .err ∨ (read R d).parts? = some (R.parts new.pa) := by
   cases hd with
-  | pmbr m hm => left; simp [read, readBackup, hP, hB]
+  | pmbrFirst m hm hf => left; simp [read, readBackup, hP, hB]
+  | pmbrLast m hm hf => right; simp [read, hNew.hdrP, Out.parts?]
   | backupArray keep => left; simp [read, readBackup, hP, hB]
   | backupHeader h hh =>
     rcases hh with hh | hh
@@ -146,6 +158,59 @@ theorem blank_old {S P : Type} {n : Nat} (R : Reader S P n) (old new : Disk S n)
     rcases hh with hh | hh
     · subst hh; simp [read, readBackup, hP, hNew.hdrB, hNew.same, Out.parts?]
     · subst hh; simp [read, hNew.hdrP, Out.parts?]
+
+/-! ### partition.Read (GPT, then the MBR view of sector 0) on a first-ever write -/
+
+inductive POut (P M : Type) where
+  | gpt (p : P)
+  | mbr (m : M)
+  | err
+
+/-- partition/partition.go Read: gpt.Read, and if that fails whatever mbr.Read makes of sector 0 -/
+def partRead {S P M : Type} {n : Nat} (R : Reader S P n) (mbrView : S → Option M) (d : Disk S n) : POut P M :=
+  match read R d with
+  | .ok p _ => .gpt p
+  | .err =>
+    match mbrView d.mbr with
+    | some m => .mbr m
+    | none => .err
+
+/-- repaired order (protective MBR last): on a disk without a valid GPT — blank, or carrying an MBR
+    table — every crash state reads through partition.Read exactly as the old disk did (no table, or
+    the old MBR table) or as exactly the new GPT -/
+theorem first_write_atomic {S P M : Type} {n : Nat} (R : Reader S P n) (mbrView : S → Option M) (old new : Disk S n)
+    (hP : R.hdrP old.ph = none) (hB : R.hdrB old.bh = none) (hNew : NewOk R new)
+    (d : Disk S n) (hd : Crash false old new d) :
+    partRead R mbrView d = partRead R mbrView old ∨ partRead R mbrView d = .gpt (R.parts new.pa) := by
+  have hold : read R old = .err := by simp [read, readBackup, hP, hB]
+  cases hd with
+  | pmbrFirst m hm hf => simp at hf
+  | pmbrLast m hm hf => right; simp [partRead, read, hNew.hdrP]
+  | backupArray keep => left; simp [partRead, read, readBackup, hP, hB]
+  | backupHeader h hh =>
+    rcases hh with hh | hh
+    · subst hh; left; simp [partRead, read, readBackup, hP, hB]
+    · subst hh; right; simp [partRead, read, readBackup, hP, hNew.hdrB, hNew.same]
+  | primaryArray keep => right; simp [partRead, read, readBackup, hP, hNew.hdrB, hNew.same]
+  | primaryHeader h hh =>
+    right
+    rcases hh with hh | hh
+    · subst hh; simp [partRead, read, readBackup, hP, hNew.hdrB, hNew.same]
+    · subst hh; simp [partRead, read, hNew.hdrP]
+
+/-- order found in the code (protective MBR first): on a blank disk the state right after the first
+    synced write reads through partition.Read as an MBR table — neither the old disk nor the new GPT -/
+theorem first_write_window_pmbr_first :
+    ∃ (R : Reader Nat Nat 1) (mbrView : Nat → Option Nat) (old new d : Disk Nat 1),
+      R.hdrP old.ph = none ∧ R.hdrB old.bh = none ∧ NewOk R new ∧ Crash true old new d ∧
+      partRead R mbrView d ≠ partRead R mbrView old ∧ partRead R mbrView d ≠ .gpt (R.parts new.pa) := by
+  refine ⟨⟨fun s => if s = 0 then none else some s, fun s => if s = 0 then none else some s, fun a => a 0, fun a => a 0⟩,
+          fun s => if s = 0 then none else some s,
+          ⟨0, 0, fun _ => 0, fun _ => 0, 0⟩, ⟨9, 2, fun _ => 2, fun _ => 2, 2⟩, ⟨9, 0, fun _ => 0, fun _ => 0, 0⟩,
+          rfl, rfl, ⟨rfl, rfl, rfl⟩, ?_, ?_, ?_⟩
+  · exact Crash.pmbrFirst (pmFirst := true) (old := ⟨0, 0, fun _ => 0, fun _ => 0, 0⟩) (new := ⟨9, 2, fun _ => 2, fun _ => 2, 2⟩) 9 (Or.inr rfl) rfl
+  · simp [partRead, read, readBackup]
+  · simp [partRead, read, readBackup]
 
 /-! ### the result depends on the write order -/
 
